@@ -270,4 +270,373 @@ theorem mem_domainCands (h d : Str) : d ∈ domainCands h ↔ d = h ∨ (46 :: d
   unfold domainCands
   rw [accumulate_reverse, List.mem_reverse, sufJoins_split, List.mem_cons, mem_tailsAfter]
 
+
+/-! ## the path test and the domain test against RFC 6265 §5.1.4 / §5.1.3 -/
+
+theorem head_dropWhile_false {α : Type} (p : α → Bool) (l : List α) (x : α)
+    (h : (l.dropWhile p).head? = some x) : p x = false := by
+  induction l with
+  | nil => simp at h
+  | cons a t ih =>
+    simp only [List.dropWhile] at h
+    split at h
+    · exact ih h
+    · next hp => simp at h; subst h; simpa using hp
+
+theorem rstripSlash_getLast (p : Str) : (rstripSlash p).getLast? ≠ some 47 := by
+  unfold rstripSlash
+  rw [List.getLast?_reverse]
+  intro h
+  have := head_dropWhile_false _ _ _ h
+  simp at this
+
+/-- a cookie path with at most one trailing slash -/
+def Tame (cp : Str) : Prop := cp = rstripSlash cp ∨ cp = rstripSlash cp ++ [47]
+
+theorem prefix_snoc_iff (k r : Str) (c : Nat) :
+    (k ++ [c]) <+: r ↔ k <+: r ∧ (r.drop k.length).head? = some c := by
+  constructor
+  · rintro ⟨b, rfl⟩
+    refine ⟨⟨c :: b, by simp⟩, ?_⟩
+    simp
+  · rintro ⟨⟨t, rfl⟩, h⟩
+    simp at h
+    cases t with
+    | nil => simp at h
+    | cons x t' =>
+      simp at h
+      subst h
+      exact ⟨t', by simp⟩
+
+/-- the jar's path test (stripped key among the candidates, `len(cookie["path"]) ≤ len(request path)`)
+is RFC 6265 path-match for every cookie path with at most one trailing slash -/
+theorem pathOK_iff (cp r : Str) (h : Tame cp) :
+    (rstripSlash cp ∈ pathCands r ∧ ¬ cp.length > r.length) ↔ Ref.pathMatch r cp = true := by
+  have hk := rstripSlash_getLast cp
+  unfold Tame at h
+  rw [mem_pathCands]
+  unfold Ref.pathMatch
+  simp only [Bool.or_eq_true, beq_iff_eq, Bool.and_eq_true, List.isPrefixOf_iff_prefix]
+  generalize rstripSlash cp = k at h hk
+  rcases h with h | h
+  · subst h
+    simp only [hk, false_or, prefix_snoc_iff]
+    constructor
+    · rintro ⟨h1 | h1, _⟩
+      · exact Or.inl h1.symm
+      · exact Or.inr h1
+    · rintro (h1 | h1)
+      · subst h1; exact ⟨Or.inl rfl, by omega⟩
+      · exact ⟨Or.inr h1, by have := h1.1.length_le; omega⟩
+  · subst h
+    have hl : (k ++ [47]).getLast? = some 47 := by simp
+    simp only [hl, true_or, and_true]
+    constructor
+    · rintro ⟨h1 | h1, h2⟩
+      · subst h1; simp at h2
+      · exact Or.inr h1
+    · rintro (h1 | h1)
+      · subst h1; exact ⟨Or.inr (List.prefix_refl _), by omega⟩
+      · exact ⟨Or.inr h1, by have := h1.length_le; omega⟩
+
+theorem isDomainMatch_iff (d h : Str) (hd : d ≠ []) :
+    isDomainMatch d h = true ↔ Ref.domainMatch h d = true := by
+  unfold isDomainMatch Ref.domainMatch
+  by_cases heq : h = d
+  · subst heq; simp
+  · have hne : (h == d) = false := by simpa using heq
+    simp only [hne, Bool.false_eq_true, if_false, Bool.false_or, Bool.and_eq_true, Bool.not_eq_true',
+      List.isSuffixOf_iff_suffix]
+    by_cases hs : d <:+ h
+    · obtain ⟨non, rfl⟩ := hs
+      have hlen : d.length ≠ 0 := by
+        intro h0; exact hd (List.length_eq_zero_iff.mp h0)
+      have htake : (non ++ d).take ((non ++ d).length - d.length) = non := by simp
+      have hsuf : (46 :: d) <:+ (non ++ d) ↔ non.getLast? = some 46 := by
+        constructor
+        · rintro ⟨y, hy⟩
+          have : (y ++ [46]) ++ d = non ++ d := by simpa using hy
+          have := List.append_cancel_right this
+          subst this
+          simp
+        · intro hl
+          obtain ⟨y, rfl⟩ : ∃ y, non = y ++ [46] := by
+            cases hnl : non.reverse with
+            | nil => simp at hnl; subst hnl; simp at hl
+            | cons x t =>
+              have : non = t.reverse ++ [x] := by
+                have := congrArg List.reverse hnl; simpa using this
+              subst this
+              simp at hl
+              subst hl
+              exact ⟨_, rfl⟩
+          exact ⟨y, by simp⟩
+      have hs' : (d.isSuffixOf (non ++ d)) = true := by simp
+      simp only [hs', Bool.not_true, Bool.false_eq_true, if_false, hlen, htake, hsuf]
+      by_cases hl : non.getLast? = some 46
+      · simp [hl]
+      · simp [hl]
+    · have hs' : (d.isSuffixOf h) = false := by
+        rw [← Bool.not_eq_true, List.isSuffixOf_iff_suffix]; exact hs
+      simp only [hs', Bool.not_false, if_true, Bool.false_eq_true, false_iff, not_and]
+      intro _ h46
+      exact hs ((List.suffix_cons 46 d).trans h46)
+
+
+/-! ## state invariants (hold after every history, see `inv_run`) -/
+
+structure Inv (j : Jar) : Prop where
+  /-- the Morsel's own domain is the key's domain and the key's path is the stripped Morsel path -/
+  fields : ∀ e ∈ j.cookies, e.c.domain = e.dom ∧ e.pkey = rstripSlash e.c.path
+  /-- one entry per `(domain, path, name)` -/
+  uniq : ∀ e1 ∈ j.cookies, ∀ e2 ∈ j.cookies, e1.key = e2.key → e1 = e2
+  /-- the Morsel cache is never stale -/
+  cache : ∀ k v, aget k j.cache = some v → ∀ e ∈ j.cookies, e.key = k → e.c.value = v
+  /-- every recorded deadline is scheduled on the heap -/
+  heap : ∀ k w, aget k j.expirations = some w → (w, k) ∈ j.heap
+
+theorem inv_empty : Inv {} := by
+  constructor <;> simp [aget]
+
+theorem inv_hostOnly (j : Jar) (ho : List (Str × Str)) (h : Inv j) : Inv { j with hostOnly := ho } :=
+  ⟨h.fields, h.uniq, h.cache, h.heap⟩
+
+theorem inv_expireCookie (j : Jar) (w : Int) (k : Key) (h : Inv j) : Inv (expireCookie j w k) := by
+  unfold expireCookie
+  split
+  · exact h
+  · refine ⟨h.fields, h.uniq, h.cache, ?_⟩
+    intro k' w' hk
+    simp only [aget_aset] at hk
+    split at hk
+    · next hkk =>
+      have : k = k' := by simpa using hkk
+      subst this
+      simp at hk; subst hk
+      simp
+    · exact List.mem_cons_of_mem _ (h.heap k' w' hk)
+
+/-! ### deletion -/
+
+theorem deleteCookies_cookies (ks : List Key) : ∀ (j : Jar) (e : Entry),
+    e ∈ (deleteCookies j ks).cookies ↔ e ∈ j.cookies ∧ e.key ∉ ks := by
+  induction ks with
+  | nil => intro j e; simp [deleteCookies]
+  | cons k t ih =>
+    intro j e
+    have := ih (deleteOne j k) e
+    simp only [deleteCookies, List.foldl_cons] at this ⊢
+    rw [this]
+    simp only [deleteOne, List.mem_filter, Bool.not_eq_true', beq_eq_false_iff_ne, List.mem_cons, not_or]
+    constructor
+    · rintro ⟨⟨h1, h2⟩, h3⟩; exact ⟨h1, h2, h3⟩
+    · rintro ⟨h1, h2, h3⟩; exact ⟨⟨h1, h2⟩, h3⟩
+
+theorem deleteCookies_exp (ks : List Key) : ∀ (j : Jar) (k : Key),
+    aget k (deleteCookies j ks).expirations = if k ∈ ks then none else aget k j.expirations := by
+  induction ks with
+  | nil => intro j k; simp [deleteCookies]
+  | cons k0 t ih =>
+    intro j k
+    have := ih (deleteOne j k0) k
+    simp only [deleteCookies, List.foldl_cons] at this ⊢
+    rw [this]
+    simp only [deleteOne, aget_adel, List.mem_cons]
+    by_cases h1 : k ∈ t
+    · simp [h1]
+    · by_cases h2 : k0 = k
+      · subst h2; simp
+      · have : ¬ k = k0 := fun h => h2 h.symm
+        simp [h1, h2, this]
+
+theorem deleteCookies_cache (ks : List Key) : ∀ (j : Jar) (k : Key),
+    aget k (deleteCookies j ks).cache = if k ∈ ks then none else aget k j.cache := by
+  induction ks with
+  | nil => intro j k; simp [deleteCookies]
+  | cons k0 t ih =>
+    intro j k
+    have := ih (deleteOne j k0) k
+    simp only [deleteCookies, List.foldl_cons] at this ⊢
+    rw [this]
+    simp only [deleteOne, aget_adel, List.mem_cons]
+    by_cases h1 : k ∈ t
+    · simp [h1]
+    · by_cases h2 : k0 = k
+      · subst h2; simp
+      · have : ¬ k = k0 := fun h => h2 h.symm
+        simp [h1, h2, this]
+
+theorem deleteCookies_heap (ks : List Key) : ∀ (j : Jar), (deleteCookies j ks).heap = j.heap := by
+  induction ks with
+  | nil => intro j; simp [deleteCookies]
+  | cons k0 t ih =>
+    intro j
+    have := ih (deleteOne j k0)
+    simp only [deleteCookies, List.foldl_cons] at this ⊢
+    rw [this]
+    simp [deleteOne]
+
+theorem deleteCookies_hostOnly (ks : List Key) : ∀ (j : Jar) (dn : Str × Str),
+    dn ∈ (deleteCookies j ks).hostOnly ↔ dn ∈ j.hostOnly ∧ ∀ k ∈ ks, dn ≠ (k.1, k.2.2) := by
+  induction ks with
+  | nil => intro j dn; simp [deleteCookies]
+  | cons k0 t ih =>
+    intro j dn
+    have := ih (deleteOne j k0) dn
+    simp only [deleteCookies, List.foldl_cons] at this ⊢
+    rw [this]
+    simp only [deleteOne, mem_sdel, List.mem_cons, forall_eq_or_imp]
+    constructor
+    · rintro ⟨⟨h1, h2⟩, h3⟩; exact ⟨h2, h1, h3⟩
+    · rintro ⟨h2, h1, h3⟩; exact ⟨⟨h1, h2⟩, h3⟩
+
+theorem inv_deleteCookies (j : Jar) (ks : List Key) (h : Inv j) : Inv (deleteCookies j ks) := by
+  constructor
+  · intro e he
+    exact h.fields e ((deleteCookies_cookies ks j e).mp he).1
+  · intro e1 h1 e2 h2
+    exact h.uniq e1 ((deleteCookies_cookies ks j e1).mp h1).1 e2 ((deleteCookies_cookies ks j e2).mp h2).1
+  · intro k v hk e he hek
+    rw [deleteCookies_cache] at hk
+    split at hk
+    · cases hk
+    · exact h.cache k v hk e ((deleteCookies_cookies ks j e).mp he).1 hek
+  · intro k w hk
+    rw [deleteCookies_exp] at hk
+    rw [deleteCookies_heap]
+    split at hk
+    · cases hk
+    · exact h.heap k w hk
+
+
+/-! ### `_do_expiration` -/
+
+/-- the heap after the optional clean-up of `_do_expiration` -/
+def cleanedHeap (j : Jar) : List (Int × Key) :=
+  if j.heap.length > Gen.C16.minScheduled && j.heap.length > j.expirations.length * 2 then
+    j.heap.filter (fun e => aget e.2 j.expirations == some e.1)
+  else j.heap
+
+def dueKeys (j : Jar) (now : Int) : List Key :=
+  (((cleanedHeap j).filter (fun e => e.1 ≤ now)).filter (fun e => aget e.2 j.expirations == some e.1)).map (fun e => e.2)
+
+theorem doExpiration_eq (j : Jar) (now : Int) :
+    doExpiration j now =
+      if j.heap.isEmpty then j
+      else deleteCookies { j with heap := (cleanedHeap j).filter (fun e => !(decide (e.1 ≤ now))) } (dueKeys j now) := by
+  unfold doExpiration dueKeys cleanedHeap
+  rfl
+
+theorem cleanedHeap_mem (j : Jar) (k : Key) (w : Int) (h : (w, k) ∈ j.heap)
+    (hk : aget k j.expirations = some w) : (w, k) ∈ cleanedHeap j := by
+  unfold cleanedHeap
+  split
+  · simp [List.mem_filter, h, hk]
+  · exact h
+
+theorem mem_dueKeys (j : Jar) (now : Int) (k : Key) (w : Int) (hI : Inv j)
+    (hk : aget k j.expirations = some w) (hw : w ≤ now) : k ∈ dueKeys j now := by
+  unfold dueKeys
+  simp only [List.mem_map, List.mem_filter]
+  exact ⟨(w, k), ⟨⟨cleanedHeap_mem j k w (hI.heap k w hk) hk, by simpa using hw⟩, by simp [hk]⟩, rfl⟩
+
+theorem dueKeys_due (j : Jar) (now : Int) (k : Key) (h : k ∈ dueKeys j now) :
+    ∃ w, aget k j.expirations = some w ∧ w ≤ now := by
+  unfold dueKeys at h
+  simp only [List.mem_map, List.mem_filter] at h
+  obtain ⟨⟨w, k'⟩, ⟨⟨_, h2⟩, h3⟩, rfl⟩ := h
+  exact ⟨w, by simpa using h3, by simpa using h2⟩
+
+theorem inv_deleteCookies' (j : Jar) (ks : List Key)
+    (hf : ∀ e ∈ j.cookies, e.c.domain = e.dom ∧ e.pkey = rstripSlash e.c.path)
+    (hu : ∀ e1 ∈ j.cookies, ∀ e2 ∈ j.cookies, e1.key = e2.key → e1 = e2)
+    (hc : ∀ k v, aget k j.cache = some v → ∀ e ∈ j.cookies, e.key = k → e.c.value = v)
+    (hh : ∀ k w, k ∉ ks → aget k j.expirations = some w → (w, k) ∈ j.heap) :
+    Inv (deleteCookies j ks) := by
+  constructor
+  · intro e he
+    exact hf e ((deleteCookies_cookies ks j e).mp he).1
+  · intro e1 h1 e2 h2
+    exact hu e1 ((deleteCookies_cookies ks j e1).mp h1).1 e2 ((deleteCookies_cookies ks j e2).mp h2).1
+  · intro k v hk e he hek
+    rw [deleteCookies_cache] at hk
+    split at hk
+    · cases hk
+    · exact hc k v hk e ((deleteCookies_cookies ks j e).mp he).1 hek
+  · intro k w hk
+    rw [deleteCookies_exp] at hk
+    rw [deleteCookies_heap]
+    split at hk
+    · cases hk
+    · next hn => exact hh k w hn hk
+
+theorem inv_doExpiration (j : Jar) (now : Int) (h : Inv j) : Inv (doExpiration j now) := by
+  rw [doExpiration_eq]
+  split
+  · exact h
+  · refine inv_deleteCookies' { j with heap := (cleanedHeap j).filter (fun e => !(decide (e.1 ≤ now))) } _
+      h.fields h.uniq h.cache ?_
+    intro k w hn hk
+    simp only at hk ⊢
+    refine List.mem_filter.mpr ⟨cleanedHeap_mem j k w (h.heap k w hk) hk, ?_⟩
+    by_cases hw : w ≤ now
+    · exact absurd (mem_dueKeys j now k w h hk hw) hn
+    · simpa using hw
+
+/-- after `_do_expiration` no recorded deadline is `≤ now` -/
+theorem doExpiration_noExpired (j : Jar) (now : Int) (h : Inv j) (k : Key) (w : Int)
+    (hk : aget k (doExpiration j now).expirations = some w) : now < w := by
+  rw [doExpiration_eq] at hk
+  split at hk
+  · next he =>
+    have := h.heap k w hk
+    have hnil : j.heap = [] := by simpa using he
+    rw [hnil] at this
+    simp at this
+  · rw [deleteCookies_exp] at hk
+    split at hk
+    · cases hk
+    · next hn =>
+      simp only at hk
+      by_cases hw : w ≤ now
+      · exact absurd (mem_dueKeys j now k w h hk hw) hn
+      · omega
+
+theorem doExpiration_cookies (j : Jar) (now : Int) (e : Entry) :
+    e ∈ (doExpiration j now).cookies ↔ e ∈ j.cookies ∧ (j.heap.isEmpty = true ∨ e.key ∉ dueKeys j now) := by
+  rw [doExpiration_eq]
+  split
+  · next h => simp [h]
+  · next h => rw [deleteCookies_cookies]; simp [h]
+
+theorem doExpiration_exp (j : Jar) (now : Int) (k : Key) (w : Int)
+    (h : aget k (doExpiration j now).expirations = some w) : aget k j.expirations = some w := by
+  rw [doExpiration_eq] at h
+  split at h
+  · exact h
+  · rw [deleteCookies_exp] at h
+    split at h
+    · cases h
+    · exact h
+
+theorem doExpiration_exp_keep (j : Jar) (now : Int) (hI : Inv j) (k : Key) (w : Int)
+    (h : aget k j.expirations = some w) (hw : now < w) :
+    aget k (doExpiration j now).expirations = some w := by
+  rw [doExpiration_eq]
+  split
+  · exact h
+  · rw [deleteCookies_exp]
+    split
+    · next hm =>
+      obtain ⟨w', h1, h2⟩ := dueKeys_due j now k hm
+      rw [h] at h1; cases h1; omega
+    · exact h
+
+theorem doExpiration_hostOnly_sub (j : Jar) (now : Int) (dn : Str × Str)
+    (h : dn ∈ (doExpiration j now).hostOnly) : dn ∈ j.hostOnly := by
+  rw [doExpiration_eq] at h
+  split at h
+  · exact h
+  · exact ((deleteCookies_hostOnly _ _ dn).mp h).1
+
 end Aio.C16
